@@ -1579,6 +1579,27 @@ def sec_real_samplers(ctx, rng, case):
                 m = _real_model(progs[i][1], progs[i][2](pd), reps_list[i], pd, zeros=zeros)
                 _match_real(ctx, res, m, "C18:%s-%s-order" % (which, entry), "%s[%d][%d]" % (entry, i, j), position=[i, j],
                             batch_reps=reps_list, **dict(w, circuit=repr(progs[i][0])[:500]))
+    # the same sampler object asked again after the same circuit object was edited in place: the answer describes the
+    # circuit as it is now (one more key on a fresh qubit, and one more instance of an existing key)
+    if isinstance(circuit, cirq.Circuit) and entry in ("run", "run_sweep", "run_batch"):
+        fresh = cirq.NamedQubit("c18-added-later")
+        k0, ni0, shape0 = keyspecs[0]
+        again_q = [cirq.LineQid(100 + i, d) if d != 2 else cirq.LineQubit(100 + i) for i, d in enumerate(shape0)]
+        circuit.append([cirq.measure(fresh, key="added-later"), cirq.measure(*again_q, key=k0)])
+        keyspecs2 = [(k0, ni0 + 1, shape0)] + list(keyspecs[1:]) + [("added-later", 1, (2,))]
+        pd = pds[int(rng.integers(len(pds)))]
+        reps2 = max(reps, 1)
+
+        def per_rep2(pd_):
+            out = {k_: [list(r) for r in v] for k_, v in run(pd_).items()}
+            out[k0] = out[k0] + [[0] * len(shape0)]
+            out["added-later"] = [[0]]
+            return out
+
+        m2 = _real_model(keyspecs2, per_rep2(pd), reps2, pd, zeros=zeros)
+        res2 = sampler.run(circuit, dict(pd) if pd else None, reps2)
+        _match_real(ctx, res2, m2, "C18:%s-reused-after-circuit-edit" % which, "run after editing the circuit in place",
+                    **dict(w, circuit=repr(circuit)[:700], reps=reps2))
     ctx.distinct(("real", which, entry, tuple(map(repr, steps)), repr(pds), reps),
                  nontrivial=any(s[0] == "x" for s in steps) or zeros)
     ctx.sample({"sampler": which, "entry": entry, "keyspecs": keyspecs, "reps": reps, "sweep": pds, "circuit": str(circuit)[:400]})
